@@ -84,6 +84,15 @@ def r111(ctx, res, fname, module="calc.angle"):
     for ta, tb in (("Line", "Plane"),):
         # (one branch reached from both orders after the arguments were put in a canonical order is still one computation)
         both = (ta, tb) in direct and (tb, ta) in direct and direct[(ta, tb)] is not direct[(tb, ta)]
+        if both and isinstance(direct[(ta, tb)], ast.Return) and isinstance(direct[(tb, ta)], ast.Return) \
+                and direct[(ta, tb)].value is not None and direct[(tb, ta)].value is not None:
+            from ..astutil import exchanged, expand_locals
+            pa, pb = fi.params[:2]
+            if txt(expand_locals(fi.node, direct[(ta, tb)].value, fi.params)) == exchanged(fi.node, direct[(tb, ta)].value, pa, pb, fi.params):
+                res.ob("R11.1", fi.where(direct[(tb, ta)]), "%s {%s, %s}" % (fname, ta, tb), True,
+                       "the (%s, %s) branch evaluates the expression of the (%s, %s) branch with the operands exchanged: `%s`" % (
+                           tb, ta, ta, tb, txt(direct[(tb, ta)].value)[:50]))
+                continue
         res.ob("R11.1", fi.where(), "%s {%s, %s}" % (fname, ta, tb), not both, "one order forwards to the other")
         if both:
             res.violation("R11.1", fi, direct[(tb, ta)],
